@@ -9,7 +9,7 @@ from fhgen import *
 
 RULE = ("synthesized programs (9 functions of mixed shapes) x call chains of depth 1..6 x interruption points of the "
         "innermost frame (every boundary kind: entry, prologue, body, call site, epilogue, tail call) x three "
-        "presentations x two architectures x two policies; distinct = (arch, presentation, innermost shape, boundary kind)")
+        "presentations (CIEs grouped with their FDEs, or first with interleaved FDEs and per-CIE pointer encodings) x frames up to 1 MiB x two architectures x two policies; distinct = (arch, presentation, innermost shape, boundary kind)")
 ASSUMPTIONS = ["CFI rows are given per instruction boundary as a compiler emits them (row level; the instruction-level "
                "machine is the stage-2 development)", "stack reader is a pure partial function"]
 TRUSTED_BASE = ["modelled not verified: gimli (CFI parsing, row computation incl. the AArch64 vendor opcode)"]
@@ -28,8 +28,9 @@ def generate(rng, tier):
             ba = 0x10000000 * (j + 1) + rng.choice([0, 0x1000])
             fdes = truth.program_fdes(funcs, base_svma)
             end = ba + max(f.start + f.length for f in funcs) + 0x100
-            s.module_dwarf("M%d" % j, ba, end, ba, base_svma, pres, fdes, rng, shuffle=True, n_cies=rng.range(1, 2),
-                           pcrel=(pres != "debug" and rng.chance(1, 2)))
+            mixed = (pi // 2 + j) % 3 == 0      # CIEs first with their own pointer encodings, FDEs interleaved over them
+            s.module_dwarf("M%d" % j, ba, end, ba, base_svma, pres, fdes, rng, shuffle=True,
+                           n_cies=(2 + pi % 2) if mixed else rng.range(1, 2), pcrel=(pres != "debug" and rng.chance(1, 2)), mixed=mixed)
             bases.append((pres, ba))
         s.add("new U")
         for j in range(3):
